@@ -3,6 +3,7 @@
 package verifharness
 
 import (
+	"encoding/binary"
 	"bytes"
 	"fmt"
 	"math/big"
@@ -421,6 +422,9 @@ func TestC04(t *testing.T) {
 				copySubviewHistories(out, cfg, h, 460, n/2, false)
 			}
 			randomHistories(out, "rand", cfg, h, int64(400+ci), n, func(g *gen) *histGen { return &histGen{g: g, r: g.r} })
+			if ci == 0 {
+				longLists(out, cfg, h)
+			}
 			// unions that carry one type under several selectors (re-tagging a value: the union's
 			// own content, taken out with Value(), put back under another selector)
 			twinUnionHistories(out, cfg, h, int64(490+ci), n/4)
@@ -430,6 +434,72 @@ func TestC04(t *testing.T) {
 				iterScripts(out, cfg, h)
 			}
 		})
+	}
+}
+
+// longLists: lists of 2^20 .. 2^32+5 elements (structure-shared backings built with
+// SubtreeFillToLength, a handful of nodes each).  A plain value of that length cannot be held by
+// the model, so the driver answers with what the value machine's append/pop rules say for ANY
+// list (below the limit an append succeeds and adds one element; pop undoes it), and the harness
+// observes length, the element read back, and the root before / after.
+func longLists(out *caseOut, cfg string, h tree.HashFn) {
+	u64 := &Ty{Kind: "u", N: 8}
+	elems := []*Ty{{Kind: "cont", Fields: []*Ty{u64, u64}}, {Kind: "root"}, {Kind: "vec", Elem: u64, N: 8}, {Kind: "list", Elem: &Ty{Kind: "u", N: 1}, N: 5}}
+	g := &gen{r: newRng(495), noBool: true, maxElem: 4}
+	for _, et := range elems {
+		for _, limit := range []uint64{1 << 40, 1<<32 + 7} {
+			ty := &Ty{Kind: "list", Elem: et, N: limit}
+			for _, L := range []uint64{1 << 20, 1<<30 - 3, 1<<30 - 1, 1 << 30, 1<<32 + 5, limit - 1, limit} {
+				if L > limit {
+					continue
+				}
+				ev := g.val(et)
+				obs := guard(func() string {
+					fill, err := buildView(et, g.val(et))
+					if err != nil {
+						return "res=BUILD-ERR"
+					}
+					depth := tree.CoverDepth(limit)
+					contents, err := tree.SubtreeFillToLength(fill.Backing(), depth, L)
+					if err != nil {
+						return "res=BUILD-ERR"
+					}
+					var lenLeaf tree.Root
+					binary.LittleEndian.PutUint64(lenLeaf[:8], L)
+					vw, err := ty.Def().ViewFromBacking(tree.NewPairNode(contents, &lenLeaf), nil)
+					if err != nil {
+						return "res=BUILD-ERR"
+					}
+					lv := vw.(*view.ComplexListView)
+					r0 := lv.HashTreeRoot(h)
+					el, err := buildView(et, ev)
+					if err != nil {
+						return "res=BUILD-ERR"
+					}
+					if err := lv.Append(el); err != nil {
+						ln, _ := lv.Length()
+						return joinKV("res=ERR", "len="+hx(ln), "same="+b01(lv.HashTreeRoot(h) == r0))
+					}
+					ln, _ := lv.Length()
+					last := "0"
+					if got, err := lv.Get(L); err == nil && got.HashTreeRoot(h) == el.HashTreeRoot(h) {
+						last = "1"
+					}
+					changed := b01(lv.HashTreeRoot(h) != r0)
+					back := "0"
+					if err := lv.Pop(); err == nil && lv.HashTreeRoot(h) == r0 {
+						if l2, _ := lv.Length(); l2 == L {
+							back = "1"
+						}
+					}
+					return joinKV("res=OK", "len="+hx(ln), "last="+last, "changed="+changed, "back="+back)
+				})
+				if obs == "PANIC" {
+					obs = "res=PANIC"
+				}
+				out.emit("long", "c04long", []string{cfg, ty.Sexp(), hx(L)}, obs)
+			}
+		}
 	}
 }
 
